@@ -389,10 +389,11 @@ def _while_to_for(stmts, k, fn_tail_reads):
     if w.orelse or not w.body:
         return None
     t = w.test
-    if not (isinstance(t, ast.Compare) and len(t.ops) == 1 and isinstance(t.ops[0], ast.Lt) and isinstance(t.left, ast.Name)):
+    if not (isinstance(t, ast.Compare) and len(t.ops) == 1 and isinstance(t.ops[0], (ast.Lt, ast.LtE)) and isinstance(t.left, ast.Name)):
         return None
     i = t.left.id
     N = t.comparators[0]
+    inclusive = isinstance(t.ops[0], ast.LtE)
     for n in ast.walk(N):
         if isinstance(n, ast.Call) and not (isinstance(n.func, ast.Name) and n.func.id == "len" and len(n.args) == 1):
             return None
@@ -442,7 +443,11 @@ def _while_to_for(stmts, k, fn_tail_reads):
                 return None
     if fn_tail_reads(i):
         return None
-    args = [copy.deepcopy(N)] if (isinstance(start, ast.Constant) and start.value == 0) else [copy.deepcopy(start), copy.deepcopy(N)]
+    stop = copy.deepcopy(N)
+    if inclusive:
+        # i <= N over integers steps of one: range(a, N + 1)   (N must be an integer for range, as for the original count)
+        stop = ast.BinOp(left=stop, op=ast.Add(), right=ast.Constant(value=1))
+    args = [stop] if (isinstance(start, ast.Constant) and start.value == 0) else [copy.deepcopy(start), stop]
     loop = ast.For(target=ast.Name(id=i, ctx=ast.Store()), iter=ast.Call(func=ast.Name(id="range", ctx=ast.Load()), args=args, keywords=[]),
                    body=w.body[:-1] or [ast.Pass()], orelse=[])
     STATS["while"] = STATS.get("while", 0) + 1
